@@ -4,14 +4,27 @@ From CV Require Import Base.Wire Model.Engine.
 Import ListNotations.
 Open Scope Z_scope.
 
-Definition p_lim (k v : Z) : lim := if k =? 0 then LNone else if k =? 1 then LInt v else LKey v.
+Definition p_lim (k v : Z) : lim := if k =? 0 then LNone else if k =? 1 then LInt v else if k =? 2 then LKey v else LCall.
 
-Fixpoint p_trans (n : nat) (l : list Z) : list (Z * option nat) * list Z :=
+(* a target: 0 None | 1 n state | 2 has n decide *)
+Fixpoint p_tgts (n : nat) (l : list Z) : list tgt * list Z :=
   match n with
   | O => ([], l)
   | S k => match l with
-           | key :: ht :: tg :: t => let (r, rest) := p_trans k t in
-                                     ((key, if bz ht then Some (Z.to_nat tg) else None) :: r, rest)
+           | 0 :: t => let (r, rest) := p_tgts k t in (TNone :: r, rest)
+           | 1 :: x :: t => let (r, rest) := p_tgts k t in (TState (Z.to_nat x) :: r, rest)
+           | 2 :: h :: x :: t => let (r, rest) := p_tgts k t in (TDecide (if bz h then Some (Z.to_nat x) else None) :: r, rest)
+           | _ => ([], l)
+           end
+  end.
+
+(* an edge: key, ntargets, targets... *)
+Fixpoint p_trans (n : nat) (l : list Z) : list (Z * list tgt) * list Z :=
+  match n with
+  | O => ([], l)
+  | S k => match l with
+           | key :: nt :: t => let (ts, r1) := p_tgts (Z.to_nat nt) t in
+                               let (r, rest) := p_trans k r1 in ((key, ts) :: r, rest)
            | _ => ([], l)
            end
   end.
@@ -46,14 +59,17 @@ Definition enc_data (d : data) : list Z :=
                                 | DInt z => [fst e; 0; z]
                                 | DBytes l => fst e :: 1 :: put_list l end) d.
 
-(* case: nnodes, nodes..., fuel, ninput, input...  ->  [0; code] | [1; sent; term; data...; has_yield; has_target; target] *)
+(* case: nnodes, nodes..., fuel, ninput, input..., ndecides, decides..., nlimits, limits...
+   ->  [0; code] | [1; sent; term; data...] (the tapes' leftovers are in the data under keys -1, -2) *)
 Definition run_engine (c : list Z) : list Z :=
   match c with
   | nn :: t =>
       match p_nodes (Z.to_nat nn) t with
       | Some (m, fuel :: r) =>
-          let (inp, _) := take_list r in
-          match run (Z.to_nat fuel) m inp with
+          let (inp, r1) := take_list r in
+          let (decs, r2) := take_list r1 in
+          let (lims, _) := take_list r2 in
+          match run_oracle (Z.to_nat fuel) m inp decs lims with
           | RFail code => [0; code]
           | ROk s d y term => 1 :: sent s :: zb term :: enc_data d
           end
